@@ -18,6 +18,7 @@ import (
 
 	"cosmossdk.io/log"
 	"github.com/cosmos/cosmos-sdk/client"
+	sdk "github.com/cosmos/cosmos-sdk/types"
 
 	rpctypes "github.com/EscanBE/evermint/v12/rpc/types"
 	evmtypes "github.com/EscanBE/evermint/v12/x/evm/types"
@@ -169,12 +170,14 @@ func (api *PublicFilterAPI) NewPendingTransactionFilter() rpc.ID {
 					continue
 				}
 
+				ethTxHash, isEthTx := ethereumTxHashOf(tx)
+				if !isEthTx {
+					continue
+				}
+
 				api.filtersMu.Lock()
 				if f, found := api.filters[pendingTxSub.ID()]; found {
-					ethTx, ok := tx.GetMsgs()[0].(*evmtypes.MsgEthereumTx)
-					if ok {
-						f.hashes = append(f.hashes, ethTx.AsTransaction().Hash())
-					}
+					f.hashes = append(f.hashes, ethTxHash)
 				}
 				api.filtersMu.Unlock()
 			case <-errCh:
@@ -186,6 +189,25 @@ func (api *PublicFilterAPI) NewPendingTransactionFilter() rpc.ID {
 	}(pendingTxSub.eventCh, pendingTxSub.Err())
 
 	return pendingTxSub.ID()
+}
+
+// ethereumTxHashOf returns the hash of the Ethereum transaction carried by the given tx.
+// Any tx of a block is delivered to the subscribers, including txs without message and Ethereum messages whose
+// payload does not decode (such txs fail in the state machine but are part of the block), so nothing is assumed here.
+func ethereumTxHashOf(tx sdk.Tx) (hash common.Hash, isEthTx bool) {
+	msgs := tx.GetMsgs()
+	if len(msgs) != 1 {
+		return common.Hash{}, false
+	}
+	ethMsg, ok := msgs[0].(*evmtypes.MsgEthereumTx)
+	if !ok {
+		return common.Hash{}, false
+	}
+	ethTx := &ethtypes.Transaction{}
+	if err := ethTx.UnmarshalBinary(ethMsg.MarshalledTx); err != nil {
+		return common.Hash{}, false
+	}
+	return ethTx.Hash(), true
 }
 
 // NewPendingTransactions creates a subscription that is triggered each time a transaction
@@ -233,9 +255,8 @@ func (api *PublicFilterAPI) NewPendingTransactions(ctx context.Context) (*rpc.Su
 					continue
 				}
 
-				ethTx, ok := tx.GetMsgs()[0].(*evmtypes.MsgEthereumTx)
-				if ok {
-					_ = notifier.Notify(rpcSub.ID, ethTx.AsTransaction().Hash()) // #nosec G703
+				if ethTxHash, isEthTx := ethereumTxHashOf(tx); isEthTx {
+					_ = notifier.Notify(rpcSub.ID, ethTxHash) // #nosec G703
 				}
 			case <-rpcSub.Err():
 				pendingTxSub.Unsubscribe(api.events)
